@@ -1435,6 +1435,11 @@ struct TemplateCore {
                 ++offset;
             }
 
+            if (offset == length) {
+                // Ends with ']' but has no '[': a plain name.
+                return value_->GetValue(id, length);
+            }
+
             if (offset != 0) {
                 // {var:abc[...]}
                 // if offset == 0 then it's {var:[...]}
@@ -1462,7 +1467,7 @@ struct TemplateCore {
 
             ++offset2; // The char after ]
 
-            if (id[offset2] != TagPatterns::VariableIndexPrefix) {
+            if ((offset2 >= length) || (id[offset2] != TagPatterns::VariableIndexPrefix)) {
                 break;
             }
 
